@@ -60,7 +60,7 @@ Inductive op19 :=
         (* a scripted interleaving of up to n callers, gossip heads, clock advances and
            getter answers; observed: sorted results, gossip verdicts, underlying calls *)
 | KPark (parked : bool) (g a : hdr) (i : hin)
-        (r1 r2 r3 r4 : option robs).
+        (r1 r2 r3 r4 : option robs)
         (* the witness of the former finding F19 (fixed by /repo dd38a4c): a gossip head g is delivered; with [parked] the
            verifier call is held between setLocalHead's store-head comparison and pending.Add;
            caller 1 learns the higher head a; the sync loop completes; caller 2 (failing answer)
@@ -68,6 +68,16 @@ Inductive op19 :=
            started after 1 and 2 returned, returns - with [parked] while the sync loop is
            held before its clean-up of pending; the sync loop runs; caller 4 returns.
            Observed: the four results. *)
+| KRace (g a : hdr) (i : hin)
+        (r1 r2 r3 r4 : option robs)
+        (* a Head() call against the END of a sync round: caller 1 (stale head) asks the network
+           and is held in the getter; a gossip head g enters pending; caller 2 returns it; caller 1
+           gets the answer a (above its own subjective head, below g) and is parked inside
+           pending.Add, holding the lock of the pending ranges; caller 3 starts and waits for
+           that lock inside localHead; the sync loop stores everything up to g and removes it
+           from pending; caller 1 is released (its header is ignored), caller 3 reads on and
+           returns; later caller 4.  Observed: the four results.  Caller 3 started after caller
+           2 returned: its result must not be below caller 2's. *).
 
 Record case19 := Case19 {
   k_p : params;
@@ -120,6 +130,13 @@ Definition park_l1 (parked : bool) (g a : hdr) (i : hin) : list pev :=
     PGossipA g :: map PEv (park_c1 g a i) ++ [PGossipB (i_tail i)] ++ map PEv (park_c1fin i)
   else map PEv (park_l1c g a i).
 
+Definition race_l1 (g a : hdr) (i : hin) : list pev :=
+  [PEv (CStep 1 ICall); PEv (CStep 1 INone);
+   PEv (CGossip g (i_b1 i) (i_tail i));
+   PEv (CStep 2 ICall); PEv (CStep 2 INone); PEv (CStep 2 (IAns GFail)); PEv (CStep 2 (IBif (i_b1 i)));
+   PEv (CStep 1 (IAns (GOk a))); PHeadA 1;
+   PEv CSyncDone; PHeadB 1] ++ map PEv (park_c1fin i).
+
 Fixpoint ret_of (i : nat) (tr : list obs) : option hres :=
   match tr with
   | [] => None
@@ -155,13 +172,16 @@ Definition sched_model (s : sstate) (n : nat) (i : hin) (acts : list act)
   let '(c, tr, v) := sched_run n i (cinit s) acts in
   (c_s c, sort_robs (map (proj false) (rets_of tr)), v, ids (gets_of tr)).
 
-Definition park_model (s : sstate) (parked : bool) (g a : hdr) (i : hin)
+Definition seg_model (s : sstate) (l1 : list pev) (i : hin)
   : sstate * option robs * option robs * option robs * option robs :=
-  let '(p1, t1) := prun p tv (pinit s) (park_l1 parked g a i) in
+  let '(p1, t1) := prun p tv (pinit s) l1 in
   let '(p2, t2) := prun p tv p1 (map PEv (park_c3 i)) in
   let '(p3, t3) := prun p tv p2 (map PEv (park_c4 i)) in
   (c_s (p_c p3), option_map (proj false) (ret_of 1 t1), option_map (proj false) (ret_of 2 t1),
    option_map (proj false) (ret_of 3 t2), option_map (proj false) (ret_of 4 t3)).
+
+Definition park_model (s : sstate) (parked : bool) (g a : hdr) (i : hin) := seg_model s (park_l1 parked g a i) i.
+Definition race_model (s : sstate) (g a : hdr) (i : hin) := seg_model s (race_l1 g a i) i.
 
 (** the model's observations for a list of operations *)
 Fixpoint fill (s : sstate) (ops : list op19) : list op19 :=
@@ -187,6 +207,9 @@ Fixpoint fill (s : sstate) (ops : list op19) : list op19 :=
   | KPark pk g a i _ _ _ _ :: r =>
     let '(s1, r1, r2, r3, r4) := park_model s pk g a i in
     KPark pk g a i r1 r2 r3 r4 :: fill (post sync s1) r
+  | KRace g a i _ _ _ _ :: r =>
+    let '(s1, r1, r2, r3, r4) := race_model s g a i in
+    KRace g a i r1 r2 r3 r4 :: fill (post sync s1) r
   end.
 
 Definition op_eqb (a b : op19) : bool :=
@@ -200,6 +223,9 @@ Definition op_eqb (a b : op19) : bool :=
   | KSched _ _ _ res v calls sh, KSched _ _ _ res' v' calls' sh' =>
     list_eqb robs_eqb res res' && list_eqb Bool.eqb v v' && list_eqb call_eqb calls calls' && (sh =? sh')
   | KPark _ _ _ _ r1 r2 r3 r4, KPark _ _ _ _ r1' r2' r3' r4' =>
+    option_eqb robs_eqb r1 r1' && option_eqb robs_eqb r2 r2' && option_eqb robs_eqb r3 r3' &&
+    option_eqb robs_eqb r4 r4'
+  | KRace _ _ _ r1 r2 r3 r4, KRace _ _ _ r1' r2' r3' r4' =>
     option_eqb robs_eqb r1 r1' && option_eqb robs_eqb r2 r2' && option_eqb robs_eqb r3 r3' &&
     option_eqb robs_eqb r4 r4'
   | _, _ => false
@@ -298,6 +324,11 @@ Fixpoint ok_ops (s : sstate) (lo : N) (ops : list op19) : bool :=
     let l := olist r1 ++ olist r2 ++ olist r3 ++ olist r4 in
     forallb (mono_ok lo) l && ole (oheight r1) (oheight r3) && ole (oheight r2) (oheight r3) &&
     ok_ops (post sync (fst (fst (fst (fst (park_model s pk g a i)))))) (fold_left new_lo l lo) r
+  | KRace g a i r1 r2 r3 r4 :: r =>
+    (* caller 2 returned before caller 3 started (caller 1 overlaps both) *)
+    let l := olist r1 ++ olist r2 ++ olist r3 ++ olist r4 in
+    forallb (mono_ok lo) l && ole (oheight r2) (oheight r3) &&
+    ok_ops (post sync (fst (fst (fst (fst (race_model s g a i)))))) (fold_left new_lo l lo) r
   end.
 
 End run.
@@ -528,17 +559,17 @@ Proof.
     repeat (destruct H as [<-|H]; [cbn; try discriminate; tauto|]); destruct H.
 Qed.
 
-Lemma park_ok_model s lo pk g a i : lo <= L s ->
-  let '(s1, r1, r2, r3, r4) := park_model p tv s pk g a i in
+Lemma seg_ok s lo l1 i : (forall e, In e l1 -> ~ touches 3 e) -> lo <= L s ->
+  let '(s1, r1, r2, r3, r4) := seg_model p tv s l1 i in
   let l := olist r1 ++ olist r2 ++ olist r3 ++ olist r4 in
   forallb (mono_ok lo) l && ole (oheight r1) (oheight r3) && ole (oheight r2) (oheight r3) = true /\
   fold_left new_lo l lo <= L s1.
 Proof.
-  intros Hlo. unfold park_model.
-  destruct (prun p tv (pinit s) (park_l1 pk g a i)) as [q1 t1] eqn:H1.
+  intros Hunt Hlo. unfold seg_model.
+  destruct (prun p tv (pinit s) l1) as [q1 t1] eqn:H1.
   destruct (prun p tv q1 (map PEv (park_c3 i))) as [q2 t2] eqn:H2.
   destruct (prun p tv q2 (map PEv (park_c4 i))) as [q3 t3] eqn:H3.
-  assert (Hall : prun p tv (pinit s) (park_l1 pk g a i ++ map PEv (park_c3 i) ++ map PEv (park_c4 i)) = (q3, t1 ++ t2 ++ t3))
+  assert (Hall : prun p tv (pinit s) (l1 ++ map PEv (park_c3 i) ++ map PEv (park_c4 i)) = (q3, t1 ++ t2 ++ t3))
     by (rewrite prun_app, H1, prun_app, H2, H3; reflexivity).
   destruct (prun_upper p tv _ (pinit s) _ _ (cinit_below s) Hall) as (_ & Hup & Hle).
   assert (Hge : forall b v, In (ORet b (ROk v)) (t1 ++ t2 ++ t3) -> L s <= h_height v).
@@ -546,7 +577,7 @@ Proof.
     assert (HJ : sbj_above (L s) b (p_c (pinit s))) by (split; [cbn; lia|discriminate]).
     destruct (prun_lower p tv _ _ _ _ _ _ HJ Hall) as (_ & Hl). apply Hl. exact Hin. }
   assert (Hidle : c_pc (p_c q1) 3%nat = PIdle).
-  { rewrite (puntouched p tv 3 _ _ _ _ H1); [reflexivity|]. intros e He. eapply park_l1_untouched; exact He. }
+  { rewrite (puntouched p tv 3 _ _ _ _ H1); [reflexivity|]. exact Hunt. }
   assert (Hord : forall j v1 v3, ret_of j t1 = Some (ROk v1) -> ret_of 3 t2 = Some (ROk v3) ->
                  h_height v1 <= h_height v3).
   { intros j v1 v3 Hj H3'. eapply (monotone_full p tv s _ _ _ _ _ _ j 3%nat v1 v3 H1 H2);
@@ -578,10 +609,36 @@ Proof.
     eapply Hx; [|exact Hin]; apply I3.
 Qed.
 
+Lemma race_l1_untouched g a i e : In e (race_l1 g a i) -> ~ touches 3 e.
+Proof.
+  unfold race_l1, park_c1fin. cbn. intros H;
+    repeat (destruct H as [<-|H]; [cbn; try discriminate; tauto|]); destruct H.
+Qed.
+
+Lemma park_ok_model s lo pk g a i : lo <= L s ->
+  let '(s1, r1, r2, r3, r4) := park_model p tv s pk g a i in
+  let l := olist r1 ++ olist r2 ++ olist r3 ++ olist r4 in
+  forallb (mono_ok lo) l && ole (oheight r1) (oheight r3) && ole (oheight r2) (oheight r3) = true /\
+  fold_left new_lo l lo <= L s1.
+Proof. intros Hlo. apply seg_ok; [intros e He; eapply park_l1_untouched; exact He|exact Hlo]. Qed.
+
+Lemma race_ok_model s lo g a i : lo <= L s ->
+  let '(s1, r1, r2, r3, r4) := race_model p tv s g a i in
+  let l := olist r1 ++ olist r2 ++ olist r3 ++ olist r4 in
+  forallb (mono_ok lo) l && ole (oheight r2) (oheight r3) = true /\
+  fold_left new_lo l lo <= L s1.
+Proof.
+  intros Hlo. pose proof (seg_ok s lo (race_l1 g a i) i (race_l1_untouched g a i) Hlo) as H.
+  unfold race_model. destruct (seg_model p tv s (race_l1 g a i) i) as [[[[s1 r1] r2] r3] r4].
+  destruct H as [H1 H2]. split; [|exact H2].
+  apply andb_true_iff in H1. destruct H1 as [H1 Hb]. apply andb_true_iff in H1. destruct H1 as [H1 _].
+  rewrite H1, Hb. reflexivity.
+Qed.
+
 Lemma ok_fill ops : forall s lo, lo <= L s -> ok_ops p tv sync s lo (fill p tv sync s ops) = true.
 Proof.
   induction ops as [|o ops IH]; intros s lo Hlo; cbn; [reflexivity|].
-  destruct o as [d|h b t ok sh|st i res calls sh el|n i w d res calls sh|n i acts res gok calls sh|pk g a i r1 r2 r3 r4]; cbn.
+  destruct o as [d|h b t ok sh|st i res calls sh el|n i w d res calls sh|n i acts res gok calls sh|pk g a i r1 r2 r3 r4|g a i r1 r2 r3 r4]; cbn.
   - apply IH; exact Hlo.
   - pose proof (gossip_mono p tv s h b t) as Hm.
     destruct (gossip p tv s h b t) as [s1 ok'] eqn:Hg. cbn in *. rewrite Hg. cbn. apply IH. eapply N.le_trans; [|apply post_L]; lia.
@@ -597,6 +654,9 @@ Proof.
     destruct Hc as [-> Hf]. cbn. apply IH. eapply N.le_trans; [exact Hf|apply post_L].
   - pose proof (park_ok_model s lo pk g a i Hlo) as Hc.
     destruct (park_model p tv s pk g a i) as [[[[s1 q1] q2] q3] q4] eqn:Hm. cbn. rewrite Hm. cbn.
+    destruct Hc as [-> Hf]. cbn. apply IH. eapply N.le_trans; [exact Hf|apply post_L].
+  - pose proof (race_ok_model s lo g a i Hlo) as Hc.
+    destruct (race_model p tv s g a i) as [[[[s1 q1] q2] q3] q4] eqn:Hm. cbn. rewrite Hm. cbn.
     destruct Hc as [-> Hf]. cbn. apply IH. eapply N.le_trans; [exact Hf|apply post_L].
 Qed.
 
